@@ -370,33 +370,10 @@ func checkFoundGuards(r *core.Result, prog *core.Program, lp *packages.Package) 
 					return true
 				}
 				n++
-				guarded := false
-				for cur := ast.Node(id); cur != nil && !guarded; cur = parents[cur] {
-					p := parents[cur]
-					if is, ok := p.(*ast.IfStmt); ok && is.Body == cur && isOK(is.Cond) {
-						guarded = true
-					}
-					if blk, ok := p.(*ast.BlockStmt); ok {
-						for _, st := range blk.List {
-							if st == cur {
-								break
-							}
-							if is, ok := st.(*ast.IfStmt); ok && is.Else == nil && is.Pos() > as.Pos() && isNotOK(is.Cond) && leaves(is.Body.List) {
-								guarded = true
-							}
-						}
-					}
-					if cc, ok := p.(*ast.CaseClause); ok {
-						for _, st := range cc.Body {
-							if st == cur {
-								break
-							}
-							if is, ok := st.(*ast.IfStmt); ok && is.Else == nil && is.Pos() > as.Pos() && isNotOK(is.Cond) && leaves(is.Body.List) {
-								guarded = true
-							}
-						}
-					}
-				}
+				_, _ = isNotOK, leaves
+				// the hit flag is established on every path to the use (enclosing if, guard clause, also as one of several
+				// flags tested together: `if !hasA || !hasB { return … }`)
+				guarded := dominatedBy(parents, id, isOK)
 				r.Ob("L-found", fmt.Sprintf("%s :: %s is used only after a successful search", f.Name, iID.Name), prog.Pos(id.Pos()), guarded,
 					"the position returned by slices.BinarySearch is used on a path where the search may have failed: for a tag that is not in the table it is an insertion position (another tag's entry, or one past the end)")
 				return true
